@@ -6,15 +6,47 @@ use std::io::Write;
 use rustyline::error::ReadlineError;
 use rustyline::Editor;
 
+// Parenthesis depth counted on tokens: brackets inside strings, |quoted identifiers|,
+// character literals and comments do not count, and an unterminated string or quoted
+// identifier means that the input is not complete yet.
 fn check_bracket_closed(chars: impl Iterator<Item = char>) -> bool {
     let mut count = 0;
-    let mut in_comment = false;
-    for c in chars {
-        match (c, in_comment) {
-            ('(', false) => count += 1,
-            (')', false) => count -= 1,
-            (';', false) => in_comment = true,
-            ('\n', true) => in_comment = false,
+    let mut chars = chars.peekable();
+    while let Some(c) = chars.next() {
+        match c {
+            '(' => count += 1,
+            ')' => count -= 1,
+            ';' => {
+                while let Some(&next) = chars.peek() {
+                    if next == '\n' || next == '\r' {
+                        break;
+                    }
+                    chars.next();
+                }
+            }
+            '"' => loop {
+                match chars.next() {
+                    Some('\\') => {
+                        chars.next();
+                    }
+                    Some('"') => break,
+                    Some(_) => (),
+                    None => return false,
+                }
+            },
+            '|' => loop {
+                match chars.next() {
+                    Some('|') => break,
+                    Some(_) => (),
+                    None => return false,
+                }
+            },
+            '#' => {
+                if chars.peek() == Some(&'\\') {
+                    chars.next();
+                    chars.next();
+                }
+            }
             _ => (),
         }
     }
